@@ -21,7 +21,8 @@ import (
 //     dependency loader, and the name starts with M.
 //
 // classes: found-without-file, missing-with-file, case-sensitive, wrong-name, parsed-twice, absent-side-effect,
-// error-not-located, misnamed-no-line, duplicate-redefine, unstable, fault.
+// error-not-located, definition-not-from-file, unstable, fault; misnamed-no-line and duplicate-redefine (known findings) are
+// failures of the `strict` op only.
 
 type cand struct {
 	f      *file
@@ -110,6 +111,28 @@ func (o *oracle) candidates(key []string) []cand {
 		out = append(out, cs...)
 	}
 	return out
+}
+
+// kindFor: the kind letter of the definition this candidate holds for the key (own name, or a member of its type set)
+func (c cand) kindFor(key []string) string {
+	b := c.f.body
+	if b.kind == "typeset" && !b.defines(key) {
+		for i, t := range b.types {
+			if len(key) > 0 && strings.ToLower(t) == key[len(key)-1] {
+				if i%2 == 0 {
+					return "a"
+				}
+				return "o"
+			}
+		}
+	}
+	switch b.kind {
+	case "object":
+		return "o"
+	case "typeset":
+		return "s"
+	}
+	return "a"
 }
 
 func segLess(a, b []string) bool {
@@ -273,7 +296,7 @@ func validParts(key []string) bool {
 	return true
 }
 
-func judge(s spec, outs []outcome, total map[string]int, out string) core.Result {
+func judge(s spec, outs []outcome, total map[string]int, out string, strict bool) core.Result {
 	o := &oracle{s: s, paths: map[*file]string{}}
 	for i := range s.files {
 		o.paths[&s.files[i]] = strings.Join(s.files[i].segs, "/")
@@ -288,13 +311,25 @@ func judge(s spec, outs []outcome, total map[string]int, out string) core.Result
 		r.Tags = tagList(tags)
 		return r
 	}
-	var failure *core.Result
+	// The first failure of an op is reported — except that the two known shapes (`misnamed-no-line`, `duplicate-redefine`)
+	// never hide another failure of the same op, and are failures only for the `strict` op (implementation only): in a
+	// `tree` op they are tags, so that a known finding cannot mask a correspondence difference or a new violation.
+	var failure, knownFailure *core.Result
 	note := func(class, detail string) {
+		if class == "misnamed-no-line" || class == "duplicate-redefine" {
+			tags["known-"+class] = true
+			if strict && knownFailure == nil {
+				r := fail(class, detail)
+				knownFailure = &r
+			}
+			return
+		}
 		if failure == nil {
 			r := fail(class, detail)
 			failure = &r
 		}
 	}
+	readSoFar := map[string]bool{}
 	for p, n := range total {
 		if n > 1 {
 			note("parsed-twice", fmt.Sprintf("%s was read %d times", p, n))
@@ -317,6 +352,9 @@ func judge(s spec, outs []outcome, total map[string]int, out string) core.Result
 		}
 		if len(oc.reads) > 0 && (oc.kind == "found" || oc.kind == "reported") {
 			nt = true
+		}
+		for _, r := range oc.reads {
+			readSoFar[r] = true
 		}
 		if oc.kind == "fault" {
 			note("fault", "lookup of "+l.name+" ended in a runtime fault")
@@ -357,6 +395,19 @@ func judge(s spec, outs []outcome, total map[string]int, out string) core.Result
 				note("found-without-file", fmt.Sprintf("%s found as %s but no file at its derived path (and no type set) defines it", l.name, oc.name))
 			} else if !keyEq(lowerSegs(strings.Split(oc.name, "::")), key) {
 				note("wrong-name", fmt.Sprintf("%s loaded a definition named %s", l.name, oc.name))
+			} else {
+				// the definition answered must be the one a file on the name's route holds: that file has been read, and
+				// the kind of type is the kind it defines (whatever was looked up before)
+				read, kindOK := false, false
+				for _, c := range good {
+					read = read || readSoFar[c.path]
+					kindOK = kindOK || c.kindFor(key) == oc.tkind
+				}
+				if !read {
+					note("definition-not-from-file", fmt.Sprintf("%s answered as %s although %s, which defines it, was never read", l.name, oc.name, good[0].path))
+				} else if !kindOK {
+					note("definition-not-from-file", fmt.Sprintf("%s answered with a definition of kind %s, not the one %s holds", l.name, oc.tkind, good[0].path))
+				}
 			}
 			if prev, ok := answers[id]; ok && prev == "notfound" && !anyReported {
 				note("unstable", fmt.Sprintf("%s was absent and is found later", l.name))
@@ -442,6 +493,9 @@ func judge(s spec, outs []outcome, total map[string]int, out string) core.Result
 	}
 	if failure != nil {
 		return *failure
+	}
+	if knownFailure != nil {
+		return *knownFailure
 	}
 	return core.Result{Out: out, Pred: "ok", NonTrivial: nt, Tags: tagList(tags)}
 }
